@@ -51,7 +51,12 @@ func buildRendition(rng *rand.Rand, site *origin.Site, plURL string, container s
 	}
 	r.stream = st
 	pl := &origin.Playlist{URL: plURL, TargetDuration: 1, BaseMSN: rng.Intn(3) * rng.Intn(1000)}
-	defer func() { pl.OmitRangeStart = r.rangeMode == "nostart" }()
+	defer func() {
+		pl.OmitRangeStart = r.rangeMode == "nostart"
+		if pl.OmitRangeStart && (nTotal+tagBase)%2 == 1 {
+			pl.RangeStartEvery = 2 + nTotal%3 // explicit offsets again in the middle of the run
+		}
+	}()
 	forms := []string{"seg_%d.bin", "sub/dir/seg_%d.bin", "/abs/path/seg_%d.bin", "http://cdn.example.net/x/seg_%d.bin", "../up/seg_%d.bin", "seg_%d.bin?tok=a%%20b&n=1"}
 	// file names carry the rendition tag so that renditions never share a URL
 	r.uriForm = strings.Replace(forms[rng.Intn(len(forms))], "seg_", fmt.Sprintf("r%d_seg_", tagBase), 1)
